@@ -698,6 +698,55 @@ static void fam_c09_collect_race(G& g, Plan& p) {
   P0.ops.push_back(mk(OP_giveback_check, -1, 4));
 }
 
+
+// abandoned segments that were allocated directly from the OS live on a lock-protected list; reclaim-on-free unlinks one of them
+// while other threads reclaim its neighbours, visit the list or append to it by exiting
+static void fam_c09_oslist(G& g, Plan& p) {
+  set_env(p, "DISALLOW_ARENA_ALLOC", 1);
+  if (g.chance(0.8)) set_env(p, "ABANDONED_RECLAIM_ON_FREE", 1);
+  if (g.chance(0.6)) set_env(p, "VISIT_ABANDONED", 1);
+  if (g.chance(0.2)) set_env(p, "MAX_SEGMENT_RECLAIM", g.pick({10, 100}));
+  const int nleave = 2 + (int)g.below(4);
+  const int nfree = 2 + (int)g.below(2);
+  const int nt = 1 + nleave + nfree + 1;       // main, leavers, freers, a late leaver
+  p.nslots = 400; p.progs.resize((size_t)nt);
+  if (g.chance(0.8)) {
+    p.cfg.strategy = ST_TARGETED; p.cfg.hot_p = g.pick({0.4, 0.9}); p.cfg.switch_p = g.pick({0.0, 0.002}); p.cfg.hold_steps = g.pick<uint64_t>({0, 200, 3000});
+    p.cfg.hot_funcs = {"mi_arena_segment_os_clear_abandoned", "mi_arena_segment_os_mark_abandoned", "mi_arena_segment_clear_abandoned_next_list", "_mi_arena_segment_clear_abandoned_next", "lock", "_mi_segment_attempt_reclaim"};
+  }
+  Program& P0 = p.progs[0];
+  std::vector<size_t> cls; for (int i = 0; i < 3; i++) cls.push_back(class_req(g, 44));
+  const int per = 6 + (int)g.below(12);
+  for (int t = 1; t <= nleave; t++) {
+    Program& L = p.progs[(size_t)t]; L.explicit_done = g.chance(0.5);
+    for (int i = 0; i < per; i++) L.ops.push_back(mk(OP_malloc, (t - 1) * 20 + i, g.chance(0.85) ? cls[g.below(3)] : 200 * KiB + g.below(600 * KiB)));
+    P0.ops.push_back(mk(OP_spawn, t));
+  }
+  for (int t = 1; t <= nleave; t++) P0.ops.push_back(mk(OP_join, t));
+  // freers: each has a heap (one small allocation) and then frees blocks of the terminated threads, spread over all their segments
+  for (int f = 0; f < nfree; f++) {
+    int pi = 1 + nleave + f; Program& F = p.progs[(size_t)pi]; F.explicit_done = g.chance(0.5);
+    F.ops.push_back(mk(OP_malloc, 300 + f, 64));
+    int m = 6 + (int)g.below(20);
+    for (int i = 0; i < m; i++) {
+      int k = (int)g.below(10);
+      if (k < 7) F.ops.push_back(mk(OP_free, (int)g.below((uint64_t)nleave) * 20 + (int)g.below((uint64_t)per)));
+      else if (k < 8) F.ops.push_back(mk(OP_check_owner, (int)g.below((uint64_t)nleave) * 20 + (int)g.below((uint64_t)per)));
+      else if (k < 9) F.ops.push_back(mk(OP_visit_abandoned, -1, g.below(1000)));
+      else F.ops.push_back(mk(OP_malloc, 310 + f * 10 + (int)g.below(10), cls[g.below(3)]));
+    }
+    P0.ops.push_back(mk(OP_spawn, pi));
+  }
+  { int pi = nt - 1; Program& L = p.progs[(size_t)pi]; for (int i = 0; i < 8; i++) L.ops.push_back(mk(OP_malloc, 340 + i, cls[g.below(3)])); P0.ops.push_back(mk(OP_spawn, pi)); }   // appends to the list while the others work on it
+  for (int i = 0; i < 6; i++) { if (g.chance(0.5)) P0.ops.push_back(mk(OP_free, (int)g.below((uint64_t)nleave) * 20 + (int)g.below((uint64_t)per))); else P0.ops.push_back(mk(OP_visit_abandoned, -1, g.below(1000))); }
+  for (int t = 1 + nleave; t < nt; t++) P0.ops.push_back(mk(OP_join, t));
+  P0.ops.push_back(mk(OP_verify_all));
+  P0.ops.push_back(mk(OP_census));
+  P0.ops.push_back(mk(OP_visit_abandoned, -1, g.below(1000)));
+  P0.ops.push_back(mk(OP_free_all));
+  P0.ops.push_back(mk(OP_giveback_check, -1, 4));
+}
+
 // several threads leave abandoned segments; a fresh thread allocates from user heaps until those reclaim; then deletes/destroys them
 static void fam_c09_userheap_adopter(G& g, Plan& p) {
   if (g.chance(0.5)) set_env(p, "VISIT_ABANDONED", 1);
@@ -1441,7 +1490,8 @@ static void fam_c14_arena(G& g, Plan& p) {
   Program& P0 = p.progs[0];
   if (g.chance(0.4)) {   // preempt inside the arena's claim / release / purge sequences and around their OS calls
     p.cfg.strategy = ST_TARGETED; p.cfg.hot_p = g.pick({0.3, 0.7}); p.cfg.switch_p = 0.0;
-    p.cfg.hot_funcs = {"os_call", "_mi_arena_free", "mi_arena_schedule_purge", "mi_arena_purge", "mi_arena_try_purge", "_mi_bitmap_unclaim_across", "mi_arena_try_alloc_at", "_mi_bitmap_try_claim", "mi_arenas_try_purge"};
+    if (g.chance(0.5)) p.cfg.hot_funcs = {"os_call", "_mi_arena_free", "mi_arena_schedule_purge", "mi_arena_purge", "mi_arena_try_purge", "_mi_bitmap_unclaim_across", "mi_arena_try_alloc_at", "_mi_bitmap_try_claim", "mi_arenas_try_purge"};
+    else { p.cfg.hot_funcs = {"mi_bitmap_try_find_claim_field_across", "_mi_bitmap_try_find_from_claim_across", "_mi_bitmap_try_find_claim_field", "_mi_bitmap_unclaim_across", "mi_bitmap_mask_across"}; p.cfg.hold_steps = g.pick<uint64_t>({0, 50, 500}); }   // the claim / roll-back sequences of the bitmap itself
   }
   {
     uint64_t d = 0;
@@ -1459,7 +1509,7 @@ static void fam_c14_arena(G& g, Plan& p) {
       else if (k < 46) P.ops.push_back(mk(OP_advance, -1, g.pick<uint64_t>({1, 11, 101, 200})));
       else if (k < 52) P.ops.push_back(mk(OP_collect, -1, 0));
       else {
-        int c = (int)g.below(10); size_t sz = c < 4 ? 17 * MiB + g.below(10 * MiB) : c < 6 ? 40 * MiB + g.below(20 * MiB) : 70 * MiB + g.below(130 * MiB);
+        int c = (int)g.below(10); if (B > 64 && g.chance(0.3)) c = 9; size_t sz = c < 4 ? 17 * MiB + g.below(10 * MiB) : c < 6 ? 40 * MiB + g.below(20 * MiB) : 70 * MiB + g.below(130 * MiB);
         Op o = mk(OP_malloc, slot, sz); o.hslot = 0; o.flags = OPF_MAY_FAIL; P.ops.push_back(o);
       }
     }
@@ -1613,6 +1663,7 @@ static const FamilyDef FAMILIES[] = {
   {"c11_timed", "C11", fam_c11_timed, 0, false},
   {"c09_collect_race", "C09", fam_c09_collect_race, 0, true},
   {"c07_threadstart", "C07", fam_c07_threadstart, 0, true},
+  {"c09_oslist", "C09", fam_c09_oslist, 0, true},
   {"c15_arenas", "C15", fam_c15_arenas, 0, true},
   {"c17_misuse", "C17", fam_c17_misuse, 1, true},
   {"c03_align", "C03", fam_c03_align, 1, false},
